@@ -22,6 +22,11 @@ func (e *Eval) bindParams(env *Env, fr *Frame) {
 	for n, tv := range fr.extraBinds {
 		env.vars[n] = tv
 	}
+	for n, tv := range e.logicals {
+		if fr == e.root {
+			env.vars[n] = tv
+		}
+	}
 	if fr.fn.Signature.Recv() != nil && len(fr.params) > 0 {
 		env.bind("self", fr.params[0], fr.fn.Params[0].Type())
 	}
@@ -66,6 +71,11 @@ func allProps(k *Contract) []string {
 // VerifyFunc generates the obligations of one function against its contract.
 func VerifyFunc(p *Program, key string, fn *ssa.Function, k *Contract) *FuncResult {
 	e := NewEval(p)
+	pkg := fn.Pkg
+	if pkg == nil {
+		pkg = p.pkgs[k.Pkg]
+	}
+	e.rootPkg = pkg
 	e.rootC = k
 	e.rootKey = key
 	e.safety = k.Safety
@@ -134,9 +144,22 @@ func VerifyFunc(p *Program, key string, fn *ssa.Function, k *Contract) *FuncResu
 	if len(fn.FreeVars) > 0 {
 		c.Unsupported("closure %s verified as root", fn)
 	}
-	env := e.newEnv(fn.Pkg, e.entry, e.entry)
+	env := e.newEnv(pkg, e.entry, e.entry)
+	e.logicals = map[string]TV{}
+	for _, lv := range k.Logical {
+		t := env.lookupType(lv[1])
+		if t == nil {
+			c.Unsupported("logical %s: unknown type %s", lv[0], lv[1])
+			continue
+		}
+		v := c.Fresh("logical."+lv[0], env.sortOf(t))
+		if t != seqType && t != strsType && t != qidsType {
+			c.Assert(e.typeInv(t, v))
+		}
+		e.logicals[lv[0]] = TV{T: v, Ty: t}
+	}
 	e.bindParams(env, fr)
-	e.assumeConstGlobals(fn.Pkg, e.entry)
+	e.assumeConstGlobals(pkg, e.entry)
 	for _, cl := range k.Requires {
 		ex, err := cl.Parse()
 		if err != nil {
@@ -150,7 +173,7 @@ func VerifyFunc(p *Program, key string, fn *ssa.Function, k *Contract) *FuncResu
 	oc := e.evalFunc(fr, args, e.entry.Clone(), "true")
 
 	// ensures
-	post := e.newEnv(fn.Pkg, oc.St, e.entry)
+	post := e.newEnv(pkg, oc.St, e.entry)
 	e.bindParams(post, fr)
 	res := fn.Signature.Results()
 	for i := 0; i < res.Len() && i < len(oc.Results); i++ {
@@ -172,7 +195,7 @@ func VerifyFunc(p *Program, key string, fn *ssa.Function, k *Contract) *FuncResu
 		}
 		e.oblige("ensures/"+clauseLabel(cl, k.Ensures), "ensures", cl.Props, oc.NormalCond, post.evalGoal(ex), cl.Text, cl.Where)
 	}
-	ppost := e.newEnv(fn.Pkg, oc.PanicSt, e.entry)
+	ppost := e.newEnv(pkg, oc.PanicSt, e.entry)
 	e.bindParams(ppost, fr)
 	for _, cl := range k.PanicEnsures {
 		ex, err := cl.Parse()
@@ -242,6 +265,17 @@ func (e *Eval) computeAllowed(k *Contract, env *Env) {
 				if sl, ok := tv.Ty.Underlying().(*types.Slice); ok {
 					comp := e.elemComp(sl.Elem())
 					e.allowedIdx[comp] = append(e.allowedIdx[comp], "(s.arr "+tv.T+")")
+				}
+			}
+		case strings.HasPrefix(m, "fields(") && strings.HasSuffix(m, ")"):
+			if ex, err := ParseSpecExpr(m[7 : len(m)-1]); err == nil {
+				tv := env.eval(ex)
+				if pt, ok := tv.Ty.Underlying().(*types.Pointer); ok && isStruct(pt.Elem()) {
+					stt := pt.Elem().Underlying().(*types.Struct)
+					for i := 0; i < stt.NumFields(); i++ {
+						comp := e.declField(pt.Elem(), i)
+						e.allowedIdx[comp] = append(e.allowedIdx[comp], tv.T)
+					}
 				}
 			}
 		case strings.HasPrefix(m, "implsof(") && strings.HasSuffix(m, ")"):
